@@ -104,6 +104,22 @@ CHECKS: dict[str, tuple[str, str, str, str, str]] = {
         "TLC model checking of the distributive rule (PtDistLaw) + PtSem evaluated by TLC on "
         "real rewritten graphs over all policies (artefact validation)",
         "DESIGN.md section 4 C06"),
+    "C07": (
+        "exploration",
+        "Programs of C01's space (biased towards reductions/einsums, plus directed shapes: a "
+        "stored node used by two reductions, sum(x)+sum(x), an output read by another output) x "
+        "seeded in-place assignments of {ImplStored, ImplInlined, ImplSubstitution, "
+        "PrefixNamed, Named(fresh), user array/axis/reduction tags} to subsets of nodes, plus "
+        "the all-tags-stripped variant: every variant is compiled by the real generate_loopy "
+        "and executed; output names, shapes, dtypes must be identical to the untagged "
+        "program's, values equal to NumPy's and to the untagged variant's, and code generation "
+        "must not fail. Every variant's kernel is model-checked by TLC (spec/PtKernel.tla) "
+        "under ALL instruction orders its depends_on edges allow.",
+        "As C01: floating-point values sampled; gcc/loopy trusted; is_quasi_affine() is always "
+        "False with the installed loopy, so the inlined-reduction path is unreachable here.",
+        "differential execution of tagged vs untagged generated code against NumPy + TLC "
+        "model checking of every variant's kernel dependency graph (PtKernel)",
+        "DESIGN.md section 4 C07"),
     "C12": (
         "model_checking",
         "Seeded random caller programs with 1..3 call sites (bodies: random programs over 1..4 "
